@@ -126,12 +126,18 @@ impl Monitor {
                         continue;
                     }
                     let live: Vec<usize> = (0..stats.len()).filter(|&i| !stats[i].dropped.load(Ordering::SeqCst)).collect();
-                    // A live block that made no call at all while another one made 40+
-                    // (each followed by a 100 ms wait) is not running any more (its
-                    // thread has ended or is blocked for good): it cannot contribute.
+                    // A live block that is outside work() and made no call at all while
+                    // another one made 40+ (each followed by a 100 ms wait) is not running
+                    // any more (its thread has ended): it cannot contribute. A block that
+                    // is *inside* a work() call is computing (the derive macro's per-sample
+                    // tag filter takes seconds on a full 4 MB stream with ~1500 tags): that
+                    // is progress pending, never "stuck"; only the wall-clock watchdog
+                    // (inconclusive) bounds it.
                     let delta = |i: usize| stats[i].calls.load(Ordering::SeqCst).saturating_sub(snap[i]);
                     let busiest = live.iter().map(|&i| delta(i)).max().unwrap_or(0);
+                    let computing = live.iter().any(|&i| delta(i) == 0 && stats[i].in_work.load(Ordering::SeqCst));
                     if !live.is_empty()
+                        && !computing
                         && busiest >= min_calls
                         && live.iter().all(|&i| delta(i) >= min_calls || (delta(i) == 0 && busiest >= min_calls.saturating_mul(10).max(40)))
                         && rec::data_events() == last
